@@ -24,7 +24,7 @@ TIERS = {
     "quick": {"examples": 8000, "faults": 5000, "budget_s": 110},
     "thorough": {"examples": 100000, "faults": 30000, "budget_s": 1800},
 }
-PARTS = ["search"]
+PARTS = ["search", "chains_part"]
 
 
 def end_pos(tok):
@@ -361,6 +361,40 @@ def check_fault_position(doc, r, d, f, acc=None):
                                 f"{f['kind']} fault at {f['dpath']} ({f['name']}): message carries {m.get('line')}:{m.get('column')}, "
                                 f"the {'block opener' if f['object_level'] else 'keyword'} is at {tk.line}:{tk.col}", case)]
     return []
+
+
+def chains_part(acc: Acc, tier, shard, nshards):
+    """Object-level faults at every place a block can stand: for each block type and each chain of parents (up to three
+    levels, through singleton children and list members alike) a minimal valid document with an unknown keyword planted
+    in the innermost block; the message must carry the position of that block's own opening keyword. Exhaustive."""
+    from . import c09
+
+    W = env.Workers.get()
+    idx = 0
+    for t in vocab.OBJ_TYPES:
+        for chain in c09.chains(t, 3):
+            idx += 1
+            if idx % nshards != shard:
+                continue
+            doc = c09.build_doc(chain, [])
+            for surf_seed in (None, 1):
+                r = render.render(doc, render.Surface(model.RandCh(idx), comments=False) if surf_seed else None)
+                try:
+                    d = W.loads(r.text, position=True)
+                except Exception as e:
+                    acc.violations.append({"bucket": f"load:{type(e).__name__}", "message": f"minimal document rejected: {e!s:.120}", "case": {"text": r.text},
+                                           "search": "chains", "shard": shard, "round": 0, "seed": env.verif_seed(), "tier": tier})
+                    continue
+                site = faults.object_sites(doc)[-1]
+                f = faults.apply_fault(model.RandCh(idx), d, site, (None, None, "unknown_keyword"))
+                if f is None:
+                    acc.excl("chains:fault_not_applicable")
+                    continue
+                acc.exhaustive_cases += 1
+                acc.cls("chain_depth:%d" % len(chain))
+                for dd in check_fault_position(doc, r, d, f, acc):
+                    if not any(v["bucket"] == dd.bucket for v in acc.violations):
+                        acc.violations.append({**dd.as_dict(), "search": "chains", "shard": shard, "round": 0, "seed": env.verif_seed(), "tier": tier})
 
 
 def replay(case):
